@@ -196,6 +196,11 @@ func init() {
 		} else {
 			ws = []wspec{mk(10000, 30000, 12), mk(0, 45000, 21), mk(1300000, 30000, 11)}
 		}
+		// times that are not whole milliseconds (the instant queries are on the millisecond grid)
+		for _, w := range []core.Window{core.Range(600000, 60000, 6).SubMs(900000, 100000, 0), core.Range(10000, 33333, 7).SubMs(0, 0, 333333), core.Range(0, 30000, 10).SubMs(999999, 1, 0)} {
+			n := w.NSteps()
+			ws = append(ws, wspec{w, [][2]int{{1, n - 1}, {0, n - 2}}})
+		}
 		c.Rep.Bounds["windows"] = len(ws)
 		// parameters and arguments that vary per step, over the dataset of C06 (histogram
 		// buckets, a scalar source that is absent at some steps, vectors absent for a batch)
